@@ -20,7 +20,7 @@ def exec_DR(t):
     cfg, s, n, f, cx = t[0], t[1] == 's', int(t[2]), int(t[3]), t[4] == '1'
     try:
         v0 = 0j if cx else None
-        h = ((n + f) % 6 if n <= 52 else (n + f) % 4) if n <= 200 else 0
+        h = ((n + f) % 9 if n <= 52 else (n + f) % 4) if n <= 200 else 0
         def mk():
             # the format is reached directly or through a history that ends in it (the dtype string must follow the format)
             if h == 0:
@@ -29,6 +29,10 @@ def exec_DR(t):
                 x = Fxp(v0, not s, n, f, dtype_notation=cfg); x.resize(signed=s); return x
             if h == 2:
                 x = Fxp(v0, not s, n + 3, f - 1, dtype_notation=cfg); _ = x.dtype; x.resize(s, n, f); return x
+            if h >= 6:
+                # an object taken out of an array of the format: an element, a slice, an iteration step
+                arr = Fxp([0j, 0j, 0j] if cx else [0.0, 0.0, 0.0], s, n, f, dtype_notation=cfg)
+                return arr[1] if h == 6 else arr[0:2] if h == 7 else next(iter(arr))
             if h >= 4:
                 # an object that held the other kind of value first (a complex one, then a real one stored by call / set_val, or the
                 # reverse): the string follows what the object is now
